@@ -528,14 +528,14 @@ def exhaustive_small(ctx):
 
 def cases(ctx):
     rng = ctx.rng
-    for _ in range(ctx.n(450, 7000)):
+    for _ in range(ctx.n(450, 5000)):
         yield "history", gen_history(ctx, rng)
-    for _ in range(ctx.n(40, 600)):
+    for _ in range(ctx.n(40, 400)):
         yield "long", gen_history(ctx, rng, ntxn=rng.choice([8, 12]), nq=2)
-    for _ in range(ctx.n(50, 700)):
+    for _ in range(ctx.n(50, 450)):
         yield from permuted_loads(ctx, rng)
     # all query names over the label alphabet on the final state
-    for _ in range(ctx.n(40, 500)):
+    for _ in range(ctx.n(40, 350)):
         c = gen_history(ctx, rng, nq=0)
         rel, origin, txns = c
         txns[-1][1] = 1
